@@ -1892,7 +1892,8 @@ sexp sexp_compare (sexp ctx, sexp a, sexp b) {
       r = sexp_type_exception(ctx, NULL, SEXP_NUMBER, a);
       break;
     case SEXP_NUM_FIX_FIX:
-      r = sexp_make_fixnum(sexp_unbox_fixnum(a) - sexp_unbox_fixnum(b));
+      /* the difference of two fixnums need not be a fixnum, only its sign matters */
+      r = ((sexp_sint_t)a < (sexp_sint_t)b) ? SEXP_NEG_ONE : ((sexp_sint_t)a > (sexp_sint_t)b) ? SEXP_ONE : SEXP_ZERO;
       break;
     case SEXP_NUM_FIX_FLO:
       if (isinf(sexp_flonum_value(b))) {
